@@ -4,8 +4,9 @@ Specification side of C18 (what the model is proved against).  Deliberately free
 
 * `candidates m t f` — the entries of the map a comparison `f` accepts for the target `t`;
 * `uniqueOf` — "exactly one candidate, and it has a leaf", else nothing;
-* `positions v` — the tree paths (relative to the node) of every position the recorder can see in a
-  traversal `v`, each with the locations of the node at that position;
+* `positions v` — the tree paths (relative to the node) of every position the target type consumes and
+  the recorder can see in a traversal `v`, each with the locations of the node at that position;
+  `ignoredAt v` — the tree paths of the values Serde discards (`IgnoredAny`);
 * `reports ds`, `passing ds` — the validation reports / accepted values of a stream, in order.
 -/
 namespace SaphyrVerif.PathMap
@@ -22,21 +23,45 @@ def findUniqueSpec {α} (m : Map α) (t : Path) (f : Path → Path → Bool) : O
   if t = [] then none else uniqueOf (candidates m t f)
 
 mutual
-/-- relative tree paths (with node locations) of the recorder-visible positions of a traversal -/
+/-- relative tree paths (with node locations) of the positions the target type CONSUMES and the
+    recorder can see; values handed to `IgnoredAny` (and everything below them) are not positions -/
 def positions {α} : Visit α → List (Path × α)
   | .leaf _ => []
   | .seq items => positionsItems items 0
   | .map c entries => ([], c) :: positionsEntries entries
+  | .ignored _ => []
 def positionsItems {α} : List (α × Visit α) → Nat → List (Path × α)
   | [], _ => []
   | (loc, v) :: rest, i =>
-    ([idxSeg i], loc) :: ((positions v).map (fun e => (idxSeg i :: e.1, e.2)) ++ positionsItems rest (i + 1))
+    (if v.isIgnored then [] else
+      ([idxSeg i], loc) :: (positions v).map (fun e => (idxSeg i :: e.1, e.2))) ++ positionsItems rest (i + 1)
 def positionsEntries {α} : List (Option (List Char) × α × Visit α) → List (Path × α)
   | [] => []
   | (none, _, _) :: rest => positionsEntries rest
   | (some k, loc, v) :: rest =>
-    ([keySeg k], loc) :: ((positions v).map (fun e => (keySeg k :: e.1, e.2)) ++ positionsEntries rest)
+    (if v.isIgnored then [] else
+      ([keySeg k], loc) :: (positions v).map (fun e => (keySeg k :: e.1, e.2))) ++ positionsEntries rest
 end
+
+mutual
+/-- relative tree paths of the values handed to `IgnoredAny` (what `deserialize_ignored_any` forgets) -/
+def ignoredAt {α} : Visit α → List Path
+  | .leaf _ => []
+  | .seq items => ignoredItems items 0
+  | .map _ entries => ignoredEntries entries
+  | .ignored _ => [[]]
+def ignoredItems {α} : List (α × Visit α) → Nat → List Path
+  | [], _ => []
+  | (_, v) :: rest, i => (ignoredAt v).map (fun q => idxSeg i :: q) ++ ignoredItems rest (i + 1)
+def ignoredEntries {α} : List (Option (List Char) × α × Visit α) → List Path
+  | [] => []
+  | (none, _, _) :: rest => ignoredEntries rest
+  | (some k, _, v) :: rest => (ignoredAt v).map (fun q => keySeg k :: q) ++ ignoredEntries rest
+end
+
+/-- Serde decides by the key text whether a value is a field or ignored, so in a real traversal no tree
+    path is both consumed and ignored -/
+def Consistent {α} (v : Visit α) : Prop := ∀ q ∈ (positions v).map (·.1), q ∉ ignoredAt v
 
 def Doc.isDeErr {V E R} : Doc V E R → Bool
   | .deErr _ => true
